@@ -52,7 +52,7 @@ def plan(tier, seed):
 
 OPTS = st.fixed_dictionaries({
     "msgmode": st.sampled_from([0, 0, 0, 1, 2, 3]),
-    "validate": st.sampled_from([1, 1, 0]),
+    "validate": st.sampled_from([1, 1, 0, 2, 3]),  # (bit 1: checksum; bit 2: pynmeagps' VALMSGID)
     "parsebitfield": st.sampled_from([1, 0]),
     "quitonerror": st.sampled_from([0, 1]),
     "labelmsm": st.sampled_from([1, 1, 2]),
